@@ -22,6 +22,28 @@ def _ops_entry(pid, theorems, focus):
     )
 
 PROPS = {
+    "C04": dict(
+        driver="C04",
+        model="Model/SqRing.v",
+        run_fn="run_sqcase",
+        release_too=True,
+        theorems=["C04_sq_exactly_once_unmodified", "C04_sq_every_add_accounted",
+                  "C04_sq_never_overwrites_pending", "C04_sq_drained_means_all_delivered"],
+        rule="one splitmix64 stream per case: submission queue of 1..4 entries on the simulated kernel with the "
+             "counters starting at boundary values (0, 2^31-1.., 2^32-k) or random, optionally pre-filled, 2..3 real "
+             "threads each making 1..3 submissions (first poll of a write future) plus a kernel thread consuming "
+             "0..3 entries, run one at a time under the baton scheduler with a random schedule (preemption "
+             "probability 5..50% at every hook-B scheduling point: lock acquisition, loads of head/tail, slot fill, "
+             "tail store); the executed interleaving is the case and the model replays it step by step; "
+             "non-trivial = at least one preemption or a parked submission; distinct by the Coq case term",
+        assumptions=["kernel contract K1 (entries consumed in ring order, only below the published tail)",
+                     "sequentially consistent interleaving at hook-B scheduling points; the Acquire/Release/SeqCst "
+                     "orderings themselves are not verified",
+                     "queue sizes below 2^32 entries"],
+        trusted=["simulated kernel harness/src/simk.rs", "baton scheduler harness/src/sched.rs (replays are exact: "
+                 "the model reports the scheduling point it expects at every step and it is diffed)",
+                 "a10 verif hooks A/B"],
+    ),
     "C05": dict(
         driver="C05",
         model="Model/CqRing.v",
